@@ -187,6 +187,9 @@ func (p *Program) racBody(key string, tier int, capN int64, seed int64, lits map
 			rp.Gen = "[]" + ts + "{" + l + "}"
 		} else {
 			g, ok := racGen(ts, tier)
+			if con != nil && con.Universe[prm.Name()] != "" {
+				g, ok = strings.ReplaceAll(con.Universe[prm.Name()], "TIER", fmt.Sprint(tier)), true
+			}
 			if !ok {
 				return "", "", fmt.Errorf("no bounded universe for parameter type %s", ts)
 			}
